@@ -41,6 +41,7 @@ def run(v, tier, seed, replay):
                         dict(kind="correspondence", theorem="C12_digest_verify_total is about Balloon.digest_verify", mismatches=mism, seed=seed, tier=tier), no_input=True)
     finally:
         s.cleanup()
+    common.client_entry_points(v, "C12", tier, seed, ('C12',))
     v.coverage["trusted_base"] = vlib.TRUSTED_COMMON + [
         "encoding/json, base64 and net/http are not modelled: totality of decoding is established by running the real decoder on the hostile stream (no panic, no hang), not by proof",
         "the model verifier is total by construction (Coq functions); what is proved is the bound on its work and that a missing entry yields Reject; that the Go verifier does the same is the correspondence"]
